@@ -2,6 +2,7 @@ package main
 
 import (
 	"fmt"
+	"go/token"
 	"sort"
 	"strings"
 
@@ -198,25 +199,96 @@ func runC16(c *Ctx) {
 
 	// ---------- R3 order inside extendFoundAddresses ----------
 	if efa := c.P.Func("wallet", "", "extendFoundAddresses"); efa != nil {
-		loops := loopsOf(efa)
+		efaLoops := loopsOf(efa)
+		// an "extend site" of a branch: the call of Extend<Branch>Addresses inside the per-scope loop, or — when the two
+		// per-branch bodies are one shared private helper — the helper's call of its function parameter, taken once per
+		// call site of the helper with the method that call site passes.
+		type extSite struct {
+			unit   *ssa.Function // function holding the report / extend / mark sequence
+			e      *ssa.Call     // the extend call in unit
+			inEfa  *ssa.Call     // the call in extendFoundAddresses that runs the sequence for this branch
+			branch string        // branch record handed to a shared helper ("" when the sequence is inline)
+		}
+		sites := map[string][]extSite{}
+		brOf := func(name string) string {
+			for _, br := range []string{"External", "Internal"} {
+				if name == "Extend"+br+"Addresses" {
+					return br
+				}
+			}
+			return ""
+		}
+		for _, f := range p.regionOf(efa) {
+			for _, ci := range callsOf(f) {
+				call, ok := ci.(*ssa.Call)
+				if !ok {
+					continue
+				}
+				if br := brOf(calleeShort(&call.Call)); br != "" && call.Call.StaticCallee() != nil {
+					if f == efa {
+						sites[br] = append(sites[br], extSite{unit: f, e: call, inEfa: call})
+					} else {
+						for _, cs := range p.realCallers(f) {
+							if cc, ok := cs.(*ssa.Call); ok && cc.Parent() == efa {
+								sites[br] = append(sites[br], extSite{unit: f, e: call, inEfa: cc})
+							}
+						}
+					}
+					continue
+				}
+				// a call of a function-typed parameter of a private part: resolved per call site of the part
+				prm, ok := call.Call.Value.(*ssa.Parameter)
+				if !ok || call.Call.IsInvoke() || f == efa || f.Parent() != nil {
+					continue
+				}
+				idx := paramIndex(f, prm)
+				for _, cs := range p.realCallers(f) {
+					cc, ok := cs.(*ssa.Call)
+					if !ok || cc.Parent() != efa || idx < 0 || idx >= len(cc.Call.Args) {
+						continue
+					}
+					g := p.underlying(fnValueOf(cc.Call.Args[idx]))
+					if g == nil {
+						continue
+					}
+					br := brOf(g.Name())
+					if br == "" {
+						continue
+					}
+					branch := ""
+					for _, a := range cc.Call.Args {
+						if _, fld, _, ok := fieldOf(stripConv(a)); ok && strings.HasSuffix(fld, "Branch") {
+							branch = fld
+						}
+					}
+					sites[br] = append(sites[br], extSite{unit: f, e: call, inEfa: cc, branch: branch})
+				}
+			}
+		}
 		for _, br := range []string{"External", "Internal"} {
-			ext := callsNamed(efa, "Extend"+br+"Addresses")
+			ext := sites[br]
 			if len(ext) != 1 {
 				c.Check("C16-R3", "extend-call:"+br, efa.Pos(), false, fmt.Sprintf("%d calls to Extend%sAddresses", len(ext), br))
 				continue
 			}
-			e := ext[0]
-			outer := innermostLoopOf(loops, e)
+			st := ext[0]
+			e, unit := st.e, st.unit
+			outer := innermostLoopOf(efaLoops, st.inEfa)
 			if outer == nil {
 				c.Check("C16-R3", "extend-per-scope:"+br, e.Pos(), false, "Extend"+br+"Addresses is not inside the per-scope loop")
 				continue
 			}
-			c.Check("C16-R3", "scope-loop-over-found:"+br, outer.Header.Instrs[0].Pos(), strings.Contains(outer.Over, "Found"+br+"Addrs") && len(outer.EarlyExits(p)) == 0,
-				"the per-scope loop does not range completely over Found"+br+"Addrs ("+outer.Over+")")
-			// report loop and mark loop inside outer
+			c.Check("C16-R3", "scope-loop-over-found:"+br, outer.Header.Instrs[0].Pos(), strings.Contains(outer.Over, "Found"+br+"Addrs") && len(outer.EarlyExits(p)) == 0 &&
+				(st.branch == "" || st.branch == br+"Branch"),
+				"the per-scope loop does not range completely over Found"+br+"Addrs ("+outer.Over+"), or hands the other branch's record to the shared per-branch step")
+			// report loop and mark loop: inside the per-scope loop when the sequence is inline, the helper's loops otherwise
+			loops := efaLoops
+			if unit != efa {
+				loops = loopsOf(unit)
+			}
 			var rep, mark *Loop
 			for _, l := range loops {
-				if l == outer || !outer.Blocks[l.Header] {
+				if unit == efa && (l == outer || !outer.Blocks[l.Header]) {
 					continue
 				}
 				if l.containsInstr(isCallNamed("ReportFound")) {
@@ -228,25 +300,36 @@ func runC16(c *Ctx) {
 			}
 			okOrder := rep != nil && mark != nil
 			if okOrder {
-				// from iteration start to Extend: passes report loop header and NextUnfound
-				for _, nd := range []func(ssa.Instruction) bool{func(i ssa.Instruction) bool { return i.Block() == rep.Header }, isCallNamed("NextUnfound")} {
+				// from the start of the per-scope step to Extend: passes report loop header and NextUnfound
+				type start struct{ b, via *ssa.BasicBlock }
+				var starts []start
+				if unit == efa {
 					for _, entry := range outer.bodyEntries() {
-						q := &PathQuery{Fn: efa, Barrier: nd}
+						starts = append(starts, start{entry, outer.Header})
+					}
+				} else {
+					starts = append(starts, start{unit.Blocks[0], nil})
+				}
+				for _, nd := range []func(ssa.Instruction) bool{func(i ssa.Instruction) bool { return i.Block() == rep.Header }, isCallNamed("NextUnfound")} {
+					for _, sp := range starts {
+						q := &PathQuery{Fn: unit, Barrier: nd}
 						q.Target = func(ins ssa.Instruction, via *ssa.BasicBlock) bool { return ins == ssa.Instruction(e) }
-						if len(exploreFromBlock(q, entry, outer.Header)) > 0 {
+						if len(exploreFromBlock(q, sp.b, sp.via)) > 0 {
 							okOrder = false
 						}
 					}
 				}
 				// NextUnfound after the report loop: the call is not inside rep and rep.Header dominates it
-				for _, nu := range callsNamed(efa, "NextUnfound") {
-					if outer.Blocks[nu.Block()] && !(rep.Header.Dominates(nu.Block()) && !rep.Blocks[nu.Block()]) {
+				for _, nu := range callsNamed(unit, "NextUnfound") {
+					if (unit != efa || outer.Blocks[nu.Block()]) && !(rep.Header.Dominates(nu.Block()) && !rep.Blocks[nu.Block()]) {
 						okOrder = false
 					}
 				}
 				// from Extend to the next scope: passes mark loop header
-				q := &PathQuery{Fn: efa, Barrier: func(i ssa.Instruction) bool { return i.Block() == mark.Header }}
-				q.LoopExit = func(from, to *ssa.BasicBlock) bool { return to == outer.Header }
+				q := &PathQuery{Fn: unit, Barrier: func(i ssa.Instruction) bool { return i.Block() == mark.Header }}
+				if unit == efa {
+					q.LoopExit = func(from, to *ssa.BasicBlock) bool { return to == outer.Header }
+				}
 				q.Target = p.nonErrorReturn()
 				if len(q.From(e)) > 0 {
 					okOrder = false
@@ -254,6 +337,10 @@ func runC16(c *Ctx) {
 				bad1 := rep.MustPassPerIteration(p, isCallNamed("ReportFound"))
 				bad2 := mark.MustPassPerIteration(p, isCallNamed("MarkUsed"))
 				if bad1 != "" || bad2 != "" || len(rep.EarlyExits(p)) > 0 || len(mark.EarlyExits(p)) > 0 {
+					okOrder = false
+				}
+				// a shared step runs to completion for the scope: its failure leaves the per-scope loop with the error
+				if unit != efa && len(outer.EarlyExits(p)) > 0 {
 					okOrder = false
 				}
 			}
@@ -367,6 +454,7 @@ func runC16(c *Ctx) {
 	checkFilterBlockVisitsEveryTx(c, "C16-R2")
 	checkWatchedAddressSetOnlyGrows(c, "C16-R6")
 	checkAddrTypeFollowsBranch(c, "C16-R4")
+	checkRecoveryStartsAtCurrentBirthdayBlock(c, "C16-R6")
 	checkBirthdayMargin(c, "C16-R6")
 	checkFoundIndexSetsAccumulate(c, "C16-R2")
 	checkFilterRequestCarriesEveryAddress(c, "C16-R1")
@@ -502,4 +590,116 @@ func reachableAvoidingInstr(fn *ssa.Function, l *Loop, to *ssa.BasicBlock, pred 
 		}
 	}
 	return false
+}
+
+// checkRecoveryStartsAtCurrentBirthdayBlock: the startup path may MOVE the birthday block (a reorganisation reaching
+// below it re-bases the birthday block onto the fork point) before it starts the recovery. The recovery skips every block
+// below the stamp it is handed, so that stamp must be able to be the block just recorded: every block stamp cell that
+// the startup path hands to SetBirthdayBlock is one the recovery's stamp argument can come from (the same variable, or
+// a variable that is assigned from it). Otherwise the new chain's blocks between the fork point and the old birthday
+// height are marked synced without being filtered, and payments in them are never found.
+func checkRecoveryStartsAtCurrentBirthdayBlock(c *Ctx, rule string) {
+	p := c.P
+	syn := p.Func("wallet", "Wallet", "syncWithChain")
+	setBday := p.Func("waddrmgr", "Manager", "SetBirthdayBlock")
+	if syn == nil || setBday == nil {
+		c.Unresolved(rule, "wallet.syncWithChain / waddrmgr.Manager.SetBirthdayBlock")
+		return
+	}
+	// the cell (variable) a value is read from: the allocation, parameter or captured variable behind its loads
+	var cellOf func(v ssa.Value, depth int) ssa.Value
+	cellOf = func(v ssa.Value, depth int) ssa.Value {
+		v = stripConv(v)
+		if depth > 4 {
+			return v
+		}
+		switch x := v.(type) {
+		case *ssa.UnOp:
+			if x.Op == token.MUL {
+				return cellOf(x.X, depth+1)
+			}
+		case *ssa.FreeVar:
+			if r := freeVarRoot(x); r != ssa.Value(x) {
+				return cellOf(r, depth+1)
+			}
+		case *ssa.Alloc:
+			// a parameter spilled to the stack stands for the parameter
+			if isParamSpill(x) {
+				for _, st := range storesTo(x) {
+					if prm, ok := st.Val.(*ssa.Parameter); ok {
+						return prm
+					}
+				}
+			}
+		}
+		return v
+	}
+	region := p.regionOf(syn)
+	storesIntoCell := func(cell ssa.Value) []ssa.Value {
+		var out []ssa.Value
+		for _, f := range region {
+			for _, b := range f.Blocks {
+				for _, ins := range b.Instrs {
+					if st, ok := ins.(*ssa.Store); ok && cellOf(st.Addr, 0) == cell {
+						if _, isFA := stripConv(st.Addr).(*ssa.FieldAddr); !isFA {
+							out = append(out, st.Val)
+						}
+					}
+				}
+			}
+		}
+		return out
+	}
+	// cells the recovery's stamp can come from: its own variable, and transitively every variable assigned into it
+	var rec *ssa.Call
+	for _, f := range region {
+		for _, call := range callsNamed(f, "recovery") {
+			rec = call
+		}
+	}
+	if rec == nil {
+		c.Check(rule, "recovery-call", syn.Pos(), false, "syncWithChain does not start the recovery (undecided)")
+		return
+	}
+	arg := p.argNamed(rec, "birthdayBlock", 2)
+	if arg == nil {
+		c.Check(rule, "recovery-call", rec.Pos(), false, "the recovery's birthday stamp argument could not be identified (undecided)")
+		return
+	}
+	from := map[ssa.Value]bool{}
+	var grow func(v ssa.Value, depth int)
+	grow = func(v ssa.Value, depth int) {
+		cell := cellOf(v, 0)
+		if from[cell] || depth > 6 {
+			return
+		}
+		from[cell] = true
+		for _, sv := range storesIntoCell(cell) {
+			grow(sv, depth+1)
+		}
+		if ph, ok := cell.(*ssa.Phi); ok {
+			for _, e := range ph.Edges {
+				grow(e, depth+1)
+			}
+		}
+	}
+	grow(arg, 0)
+	n := 0
+	for _, f := range region {
+		for _, ci := range callsOf(f) {
+			call, ok := ci.(*ssa.Call)
+			if !ok || !p.isCallTo(call, setBday) {
+				continue
+			}
+			stamp := p.argNamed(call, "block", 2)
+			if stamp == nil {
+				continue
+			}
+			n++
+			cell := cellOf(stamp, 0)
+			c.Check(rule, "recovery-starts-at-recorded-birthday-block:"+fnName(f), call.Pos(), from[cell],
+				fnName(f)+" records a new birthday block, but the recovery that follows is handed a stamp that cannot be that block: it skips the blocks below the OLD birthday height, so after a reorganisation reaching below the birthday block the new chain's blocks above the fork point are marked synced without being scanned")
+		}
+	}
+	c.Floor(rule, "birthday-block recordings on the startup path", n, 2)
 }
